@@ -18,7 +18,7 @@ func genRace(r *Rng, prop string) *Scenario {
 		return genRaceC16(r, sc)
 	}
 	kind := r.weighted(3, 5, 2)
-	if prop == "C15" {
+	if prop == "C15" || prop == "C07" {
 		kind = 0
 	}
 	if kind == 2 {
@@ -59,7 +59,7 @@ func genRace(r *Rng, prop string) *Scenario {
 		}
 		return op
 	}
-	if kind == 0 && prop != "C15" && r.chance(0.3) {
+	if kind == 0 && prop != "C15" && prop != "C07" && r.chance(0.3) {
 		return genRaceHeld(r, sc)
 	}
 	if kind == 0 {
@@ -96,6 +96,28 @@ func genRace(r *Rng, prop string) *Scenario {
 					sc.Script = append(sc.Script, Out{Conn: 1, AtUs: t, Kind: "pkt", Pkt: &Pkt{Type: TPublish, QoS: 1, ID: uint16(200 + ph*10 + i), Topic: "a/x", Pay: fmt.Sprintf("inb%d_%d", ph, i)}})
 				}
 			}
+			if ph == 0 && prop != "C15" && (r.chance(0.25) || (prop == "C07" && r.chance(0.6))) {
+				// cold start: the first requests of one kind this client ever makes,
+				// all at once (whatever a request sets up on first use is set up by
+				// several callers at the same moment)
+				same := r.IntN(5)
+				for i := 0; i < int(r.between(4, 10)); i++ {
+					op := Op{AtUs: t}
+					switch same {
+					case 0, 1:
+						tok++
+						op.Kind, op.QoS, op.Topic, op.Token = "publish", byte(1+same), topics[r.IntN(len(topics))], fmt.Sprintf("m%d", tok)
+					case 2:
+						op.Kind, op.Subs = "subscribe", []SubReq{{filters[i%len(filters)], byte(r.IntN(3))}}
+					case 3:
+						op.Kind, op.Topics = "unsubscribe", []string{filters[i%len(filters)]}
+					default:
+						op.Kind = "ping"
+					}
+					addOp(op)
+				}
+				n = 0
+			}
 			for i := 0; i < n; i++ {
 				op := request(t, true)
 				if prop == "C15" && (op.Kind == "ping" || op.Kind == "probe" || op.Kind == "handle") {
@@ -114,7 +136,7 @@ func genRace(r *Rng, prop string) *Scenario {
 			}
 			t += 2000
 		}
-		if r.chance(0.3) {
+		if prop != "C07" && r.chance(0.3) {
 			sc.Ops = append(sc.Ops, Op{AtUs: t - 1000, Actor: -1, Kind: "close"})
 			for i := 0; i < 3; i++ {
 				addOp(request(t-1000, true))
